@@ -1,5 +1,6 @@
 import EpModel.Driver.Util
 import EpModel.Model.Checksum
+import EpModel.Model.ChecksumWire
 import EpModel.Spec.Rfc1071
 /- `ck.*` operations: checksum helpers. -/
 namespace EpModel.Driver.Ck
@@ -37,6 +38,44 @@ def run (op : String) (args : List String) : Option String :=
       let bs ← parts.mapM argHex
       let s := bs.foldl addSlice64 0
       pure s!"{swap16 (onesComplement64 s)} {swap16 (onesComplementNoZero64 s)}"
+  | "ck.s16", parts => do
+      -- Sum16BitWords::new() followed by the method that takes an argument of each part's size
+      let bs ← parts.mapM argHex
+      let s := bs.foldl s16Method 0
+      pure s!"{swap16 (onesComplement64 s)} {swap16 (onesComplementNoZero64 s)}"
+  | "ck.w.ipv4", [h] => do
+      let b ← argHex h
+      let ihl := bAt b 0 % 16
+      if b.length < 20 ∨ bAt b 0 / 16 ≠ 4 ∨ ihl < 5 ∨ b.length < ihl * 4 then pure "err"
+      else pure s!"ok({wireIpv4 (b.take (ihl * 4))})"
+  | "ck.w.udp4", [src, dst, h, pl] => do
+      let src ← argHex src; let dst ← argHex dst; let h ← argHex h; let pl ← argHex pl
+      if src.length ≠ 4 ∨ dst.length ≠ 4 ∨ h.length ≠ 8 then none
+      else if pl.length > 65535 - 8 then pure "err"
+      else pure s!"ok({wireUdp4 src dst h pl})"
+  | "ck.w.udp6", [src, dst, h, pl] => do
+      let src ← argHex src; let dst ← argHex dst; let h ← argHex h; let pl ← argHex pl
+      if src.length ≠ 16 ∨ dst.length ≠ 16 ∨ h.length ≠ 8 then none
+      else pure s!"ok({wireUdp6 src dst h pl})"
+  | "ck.w.tcp4", [src, dst, h, pl] => do
+      let src ← argHex src; let dst ← argHex dst; let h ← argHex h; let pl ← argHex pl
+      if src.length ≠ 4 ∨ dst.length ≠ 4 ∨ h.length < 20 ∨ h.length ≠ (bAt h 12 / 16) * 4 then none
+      else if pl.length > 65535 - h.length then pure "err"
+      else pure s!"ok({wireTcp4 src dst h pl})"
+  | "ck.w.tcp6", [src, dst, h, pl] => do
+      let src ← argHex src; let dst ← argHex dst; let h ← argHex h; let pl ← argHex pl
+      if src.length ≠ 16 ∨ dst.length ≠ 16 ∨ h.length < 20 ∨ h.length ≠ (bAt h 12 / 16) * 4 then none
+      else pure s!"ok({wireTcp6 src dst h pl})"
+  | "ck.w.icmp4", [m] => do
+      let m ← argHex m
+      if m.length < 8 then none else pure s!"ok({wireIcmp4 m})"
+  | "ck.w.icmp6", [src, dst, m] => do
+      let src ← argHex src; let dst ← argHex dst; let m ← argHex m
+      if src.length ≠ 16 ∨ dst.length ≠ 16 ∨ m.length < 8 then none
+      else pure s!"ok({wireIcmp6 src dst m}) valid={validIcmp6 src dst m}"
+  | "ck.w.igmp", [m] => do
+      let m ← argHex m
+      if m.length < 8 then none else pure s!"ok({wireIgmp m})"
   | "spec.ck.rfc", [h] => do
       let b ← argHex h
       pure (toString (Spec.checksum b))
